@@ -41,6 +41,12 @@ def run(a, rep, TypesBuild, tref):
         model = M.Model(ch["ir"], M.Cfg(cfg["exhaustive"], cfg["serialize_empty"]))
         t = tref(name)
         d = model.definition(t)
+        # the emitted type has an Unknown variant exactly in the non-exhaustive configuration
+        emitted = tb.has_unknown[(ci, cname)].get(name)
+        if emitted is not None and emitted != (not cfg["exhaustive"]):
+            rep.violation("C10|unknown-variant-%s|%s|%s" % ("missing" if not emitted else "present-although-exhaustive", kind, "exhaustive" if cfg["exhaustive"] else "default"),
+                          "%s %s generated with exhaustive=%s serializeEmptyCollections=%s %s an Unknown variant" % (kind, name, cfg["exhaustive"], cfg["serialize_empty"], "has" if emitted else "lacks"),
+                          {"type": name, "config": cname, "doc": "null", "side": "c"})
         cases = []  # (text, class, expected-name)
         unk_prefix = "Unknown("
         if kind == "union" and any(f["fieldName"] == "unknown" for f in d["union"]):
